@@ -135,6 +135,13 @@ type Req struct {
 	// acknowledgement like any other
 	MoreFilters int `json:"more_filters,omitempty"`
 	Refuse      int `json:"refuse,omitempty"`
+	// ExplicitID: the application sets the packet identifier itself (pub1 pub2 sub unsub). The
+	// generator gives an identifier to a later request only after the earlier request with it
+	// has completed (forced requests complete before the next one is issued).
+	ExplicitID uint16 `json:"explicit_id,omitempty"`
+	// Unencodable: a PUBLISH with an explicit identifier and no topic: the sending call returns an
+	// error and nothing is sent - no completion for it, nothing in the way of the others
+	Unencodable bool `json:"unencodable,omitempty"`
 }
 
 type C12Case struct {
@@ -235,6 +242,15 @@ func runC12(c C12Case) (res c12result) {
 				m.SetPayload(make([]byte, 20000)) // the client's buffers hold 16384 bytes
 			}
 			m.SetQoS(byte(r.Kind[3] - '0'))
+			if r.Unencodable {
+				m = message.NewPublishMessage()
+				m.SetPayload([]byte("no topic"))
+				m.SetQoS(byte(r.Kind[3] - '0'))
+				m.SetPacketID(40000 + uint16(i))
+			}
+			if r.ExplicitID != 0 && r.Kind != "pub0" {
+				m.SetPacketID(r.ExplicitID)
+			}
 			return s.cl.Publish(m, cbOf(i))
 		case "sub":
 			m := message.NewSubscribeMessage()
@@ -245,12 +261,18 @@ func runC12(c C12Case) (res c12result) {
 			for k := 0; r.Unsendable && k < 400; k++ {
 				m.AddTopic([]byte(fmt.Sprintf("c12/a-rather-long-filter-to-fill-the-packet/%d/%d/+/#", i, k)), 1)
 			}
+			if r.ExplicitID != 0 {
+				m.SetPacketID(r.ExplicitID)
+			}
 			return s.cl.Subscribe(m, cbOf(i), func(*message.PublishMessage) error { return nil })
 		case "unsub":
 			m := message.NewUnsubscribeMessage()
 			m.AddTopic([]byte(fmt.Sprintf("c12/f/%d", i)))
 			for k := 0; r.Unsendable && k < 400; k++ {
 				m.AddTopic([]byte(fmt.Sprintf("c12/a-rather-long-filter-to-fill-the-packet/%d/%d/+/#", i, k)))
+			}
+			if r.ExplicitID != 0 {
+				m.SetPacketID(r.ExplicitID)
 			}
 			return s.cl.Unsubscribe(m, cbOf(i))
 		default:
@@ -265,6 +287,9 @@ func runC12(c C12Case) (res c12result) {
 			return fmt.Sprintf("request %d (%s) did not arrive at the server: %v (stream error: %v)", i, c.Reqs[i].Kind, err, s.srv.StreamErr())
 		}
 		ids[i] = p.PacketID
+		if x := c.Reqs[i].ExplicitID; x != 0 && t != codec.PINGREQ && !(t == codec.PUBLISH && p.QoS == 0) && p.PacketID != x {
+			return fmt.Sprintf("request %d (%s) was given the packet identifier %d by the application and went out with %d", i, c.Reqs[i].Kind, x, p.PacketID)
+		}
 		if t != codec.PINGREQ && !(t == codec.PUBLISH && p.QoS == 0) && p.PacketID == 0 {
 			return fmt.Sprintf("request %d (%s) carries packet identifier 0", i, c.Reqs[i].Kind)
 		}
@@ -329,6 +354,13 @@ func runC12(c C12Case) (res c12result) {
 	}
 	var pending []int
 	for i, r := range c.Reqs {
+		if r.Unencodable {
+			if err := issue(i); err == nil {
+				return c12result{Incon: fmt.Sprintf("request %d (%s without a topic) cannot be encoded, yet the sending call reported success", i, r.Kind)}
+			}
+			cls["unencodable-request-among-the-others"] = true
+			continue
+		}
 		if r.Unsendable {
 			if err := issue(i); err == nil {
 				return c12result{Incon: fmt.Sprintf("request %d (%s) is larger than the client's buffers, yet the sending call reported success", i, r.Kind)}
@@ -354,6 +386,11 @@ func runC12(c C12Case) (res c12result) {
 			}
 			if f := takeRequest(i); f != "" {
 				return c12result{Fail: f}
+			}
+			for _, j := range pending {
+				if ids[j] == ids[i] && requestType(c.Reqs[j].Kind) == requestType(c.Reqs[i].Kind) {
+					return c12result{Incon: fmt.Sprintf("an automatic packet identifier (%d) coincides with one in flight", ids[i])}
+				}
 			}
 			pending = append(pending, i)
 			continue
@@ -429,7 +466,7 @@ func runC12(c C12Case) (res c12result) {
 	due := func() (out []int) {
 		open := map[string]bool{}
 		for j, r := range c.Reqs {
-			if r.Unsendable || r.Kind == "pub0" {
+			if r.Unsendable || r.Unencodable || r.Kind == "pub0" {
 				continue
 			}
 			if !termSent[j].Load() {
@@ -477,7 +514,7 @@ func runC12(c C12Case) (res c12result) {
 		if r.NoCb {
 			continue
 		}
-		if r.Unsendable {
+		if r.Unsendable || r.Unencodable {
 			if got := fired[i].Load(); got != 0 {
 				return c12result{Fail: fmt.Sprintf("request %d (%s) could not be sent (the sending call returned an error, nothing was acknowledged), yet its completion callback fired %d time(s)", i, r.Kind, got)}
 			}
@@ -507,6 +544,13 @@ func runC12(c C12Case) (res c12result) {
 	return res
 }
 
+func kindGroup(kind string) string {
+	if kind == "pub1" || kind == "pub2" {
+		return "pub"
+	}
+	return kind
+}
+
 func genC12(t *rapid.T) C12Case {
 	var c C12Case
 	ping := false
@@ -522,6 +566,8 @@ func genC12(t *rapid.T) C12Case {
 		c.AckOrder = rapid.SliceOfN(rapid.IntRange(0, 29), 0, 6).Draw(t, "bulkorder")
 		return c
 	}
+	xInFlight := map[uint16]bool{}
+	pendingKind := map[string]bool{}
 	for i, n := 0, rapid.IntRange(1, 8).Draw(t, "nreqs"); i < n; i++ {
 		k := rapid.SampledFrom([]string{"pub0", "pub1", "pub1", "pub2", "pub2", "sub", "unsub", "ping"}).Draw(t, "kind")
 		if k == "ping" {
@@ -549,6 +595,22 @@ func genC12(t *rapid.T) C12Case {
 		}
 		if rapid.IntRange(0, 7).Draw(t, "nocb") == 0 {
 			r.NoCb, r.CbErr = true, false
+		}
+		if (k == "pub1" || k == "pub2") && !r.Unsendable && rapid.IntRange(0, 11).Draw(t, "unencodable") == 0 {
+			r = Req{Kind: k, Unencodable: true}
+		}
+		if k != "pub0" && k != "ping" && !r.Unsendable && !r.Unencodable && rapid.IntRange(0, 2).Draw(t, "explicit") == 0 {
+			// an identifier of the application's own; a request still in flight keeps its identifier to itself
+			// (a forced request completes at once unless an earlier request of its kind is
+			// still waiting for its acknowledgement: completions are handed out in order)
+			x := rapid.SampledFrom([]uint16{60001, 60002}).Draw(t, "xid")
+			if !xInFlight[x] {
+				r.ExplicitID = x
+				xInFlight[x] = !r.Forced || pendingKind[kindGroup(k)]
+			}
+		}
+		if !r.Forced && !r.Unsendable && !r.Unencodable && k != "pub0" {
+			pendingKind[kindGroup(k)] = true
 		}
 		c.Reqs = append(c.Reqs, r)
 	}
